@@ -2,6 +2,7 @@ package props
 
 import (
 	"fmt"
+	"strings"
 	"testing"
 
 	"pgregory.net/rapid"
@@ -15,6 +16,7 @@ type c07Case struct {
 	Depth       int    `json:"depth"`
 	PathOps     int    `json:"max_path_operators"`
 	Family      string `json:"family"`
+	Stripped    int    `json:"bodies_with_alternations_removed_for_cost,omitempty"`
 }
 
 // decoratePaths replaces some propertyConstraints keys by random path expressions and adds extra constraints.
@@ -54,6 +56,71 @@ func decoratePaths(t *rapid.T, f *m.F, maxOps *int) {
 		if seen[k] {
 			f.PC[i].Key = ""
 			f.PC[i].Prop = fmt.Sprintf("%sdup%d", f.PC[i].Prop, i)
+		}
+		seen[k] = true
+	}
+}
+
+// altProduct multiplies (1 + number of `|`) over all keys of the formula, capped.
+func altProduct(f *m.F) int {
+	n := 1
+	mul := func(k int) {
+		if n *= k; n > 1<<20 {
+			n = 1 << 20
+		}
+	}
+	for _, s := range f.Sub {
+		mul(altProduct(s))
+	}
+	for _, e := range f.PC {
+		mul(1 + strings.Count(e.Key, "|"))
+		for _, c := range e.Cs {
+			if c.Body != nil {
+				mul(altProduct(c.Body))
+			}
+		}
+	}
+	return n
+}
+
+func stripExtras(f *m.F) {
+	for _, s := range f.Sub {
+		stripExtras(s)
+	}
+	for i := range f.PC {
+		f.PC[i].Extra = nil
+		for _, c := range f.PC[i].Cs {
+			if c.Body != nil {
+				stripExtras(c.Body)
+			}
+		}
+	}
+}
+
+// stripAlternations puts the plain property back where a key holds a path with `|`, keeping keys unique.
+func stripAlternations(f *m.F) {
+	for _, s := range f.Sub {
+		stripAlternations(s)
+	}
+	seen := map[string]bool{}
+	for i := range f.PC {
+		e := &f.PC[i]
+		for _, c := range e.Cs {
+			if c.Body != nil {
+				stripAlternations(c.Body)
+			}
+		}
+		if strings.Contains(e.Key, "|") {
+			e.Key = ""
+			e.Prop = fmt.Sprintf("%salt%d", e.Prop, i)
+		}
+		k := e.Key
+		if k == "" {
+			k = "ex." + e.Prop
+		}
+		if seen[k] {
+			e.Key = ""
+			e.Prop = fmt.Sprintf("%sdup%d", e.Prop, i)
 		}
 		seen[k] = true
 	}
@@ -143,6 +210,20 @@ func genC07(t *rapid.T) c07Case {
 			body = manyQuantified(t, g, rapid.IntRange(16, 40).Draw(t, "nq"))
 		}
 		decoratePaths(t, body, &c.PathOps)
+		// the translator repeats a validation's rule bodies for every alternative of every path in it, and the engine's
+		// conflict check is quadratic in the number of bodies: at nesting depth 6..8 (thorough tier only) the product
+		// reaches 10^4 bodies and a compilation that does not return within minutes (DESIGN section 11). Such a case
+		// can only end as a time-out, which decides nothing: alternations are taken out of the keys of that one body.
+		if thorough {
+			if body.Cost() > 120 { // the companion constraints added above are conjuncts: inside `or` they multiply too
+				stripExtras(body)
+				c.Stripped++
+			}
+			if est := body.Cost() * altProduct(body); est > 2000 || est < 0 {
+				stripAlternations(body)
+				c.Stripped++
+			}
+		}
 		st := body.Stats()
 		if st.Depth > c.Depth {
 			c.Depth = st.Depth
@@ -207,6 +288,9 @@ func decideC07(c c07Case) ev.Verdict {
 		bucket = "5-11"
 	}
 	v.Labels = []string{"quantified-vars:" + bucket, fmt.Sprintf("depth:%d", minInt(c.Depth, 9)), fmt.Sprintf("validations:%d", len(c.Quantified)), fmt.Sprintf("path-operators:%d", minInt(c.PathOps, 6)), "family:" + c.Family}
+	if c.Stripped > 0 {
+		v.Labels = append(v.Labels, "alternations-removed-for-cost")
+	}
 	v.NonTrivial = maxQ >= 2 || c.Depth >= 3 || c.PathOps >= 2
 	return v
 }
